@@ -1,5 +1,7 @@
 PROPS["C29"] = {
-    "runs": [{"cmd": "c29.random", "quick": 14, "thorough": 150, "thorough_seeds": 3}],
+    "runs": [{"cmd": "c29.random", "quick": 14, "thorough": 150, "thorough_seeds": 3},
+             {"cmd": "c29.look", "quick": 18, "thorough": 108, "thorough_seeds": 3},
+             {"cmd": "c29.js", "quick": 40, "thorough": 800, "thorough_seeds": 3}],
     "nontrivial": lambda c: len(c["input"]) > 200,
     "rule": "random conflict-free list grammars (left-, right-recursive or separated lists of small random items) with random '-> Type' arrows, compiled with cancellable = true (with/without optimizeTables and fixWhitespace); "
             "per grammar up to 3 token strings of 520..2600 tokens (a third broken at a random position, random blanks); each string is parsed uncancelled and with the context cancelled at poll 1, 2, 3, a random poll, and by the listener after a random number of events; "
